@@ -553,4 +553,123 @@ func stageSched(ctx context.Context, r *gal.Rand, w *gal.Writer, tmp string, sca
 			Class: fmt.Sprintf("sched/n=%d/bad=%v", n, bad >= 0), Trivial: false,
 			Desc: map[string]any{"kind": "InstallPackages with scripted completion order", "n": n, "completion_order": perm, "failing_expansion": bad}})
 	}
+
+	// ---- the limit of the goroutine group: g.SetLimit(GOMAXPROCS + k) --------------------------------------
+	// under GOMAXPROCS = jobs the requests must arrive as the limited model allows (expansion i is started only
+	// while fewer than the limit run: i < responses completed + limit), the call must return (a limit that
+	// leaves no slot beside the installer blocks for ever) and install in index order
+	var arrivals [][2]int
+	completed := 0
+	lsrv := httptest.NewServer(http.HandlerFunc(func(rw http.ResponseWriter, req *http.Request) {
+		name := strings.TrimSuffix(filepath.Base(req.URL.Path), "-1.0-r0.apk")
+		idx := -1
+		for i, b := range built {
+			if b.Pkg.Name == name {
+				idx = i
+			}
+		}
+		if idx < 0 {
+			http.NotFound(rw, req)
+			return
+		}
+		mu.Lock()
+		arrivals = append(arrivals, [2]int{idx, completed})
+		g := gates[name]
+		mu.Unlock()
+		if g != nil {
+			select {
+			case <-g:
+			case <-time.After(15 * time.Second):
+			}
+		}
+		// counted before the bytes leave: the client cannot have finished an expansion the server has not counted
+		mu.Lock()
+		completed++
+		mu.Unlock()
+		_, _ = rw.Write(built[idx].Bytes)
+	}))
+	defer lsrv.Close()
+	jobsList := []int{1, 2, 1, 3}
+	if scale > 1 {
+		jobsList = []int{1, 2, 3, 1, 2, 4, 1, 2, 3, 1, 1, 2}
+	}
+	for _, jobs := range jobsList {
+		n := 3 + r.Intn(maxN-2)
+		perm := shuffled(r, []int{0, 1, 2, 3, 4}[:n])
+		var pkgs []apk.InstallablePackage
+		mu.Lock()
+		arrivals, completed = nil, 0
+		for i := 0; i < n; i++ {
+			name := built[i].Pkg.Name
+			gates[name] = make(chan struct{})
+			serveBad[name] = false
+			pkgs = append(pkgs, instPkg{url: lsrv.URL + "/x86_64/" + built[i].Filename(), name: name, sum: built[i].Checksum()})
+		}
+		mu.Unlock()
+		var installed []string
+		ok := false
+		prev := runtime.GOMAXPROCS(jobs)
+		doneCh := make(chan error, 1)
+		go func() {
+			doneCh <- guard("InstallPackages", func() error {
+				a, err := apk.New(apk.WithFS(apkfs.NewMemFS()), apk.WithArch("x86_64"), apk.WithIgnoreMknodErrors(true))
+				if err != nil {
+					return err
+				}
+				if err := a.InitDB(ctx); err != nil {
+					return err
+				}
+				go func() {
+					for _, i := range perm {
+						mu.Lock()
+						g := gates[built[i].Pkg.Name]
+						mu.Unlock()
+						close(g)
+						time.Sleep(20 * time.Millisecond)
+					}
+				}()
+				sde := time.Unix(0, 0).UTC()
+				if _, err := a.InstallPackages(ctx, &sde, pkgs); err != nil {
+					return nil // observed: error
+				}
+				ok = true
+				inst, err := a.GetInstalled()
+				if err != nil {
+					return err
+				}
+				for _, p := range inst {
+					installed = append(installed, p.Name)
+				}
+				return nil
+			})
+		}()
+		var err error
+		select {
+		case err = <-doneCh:
+		case <-time.After(40 * time.Second):
+			runtime.GOMAXPROCS(prev)
+			mu.Lock()
+			seen := append([][2]int(nil), arrivals...)
+			mu.Unlock()
+			fmt.Printf("IMPL-VIOLATION tag=install-packages-never-returns %s\n", jsonOf(map[string]any{"GOMAXPROCS": jobs, "packages": n, "release_order": perm,
+				"requests_seen(package index, responses released before)": seen}))
+			break // the leaked call keeps its goroutines; one witness is enough
+		}
+		runtime.GOMAXPROCS(prev)
+		if err != nil {
+			fmt.Printf("IMPL-VIOLATION tag=canon-sched-harness %s\n", jsonOf(map[string]any{"error": err.Error()}))
+			continue
+		}
+		mu.Lock()
+		var starts []string
+		for _, a := range arrivals {
+			starts = append(starts, gal.Pair(gal.Nat(a[0]), gal.Nat(a[1])))
+		}
+		seen := append([][2]int(nil), arrivals...)
+		mu.Unlock()
+		w.Add(gal.Case{Term: fmt.Sprintf("(KLimit %s %s %s %s %s %s)", gal.Nat(jobs), gal.Nat(n), natList(perm), gal.List(starts), gal.Bool(ok), gal.StrList(installed)),
+			Class: fmt.Sprintf("limit/GOMAXPROCS=%d/n=%d", jobs, n), Trivial: false,
+			Desc: map[string]any{"kind": "InstallPackages under GOMAXPROCS", "GOMAXPROCS": jobs, "n": n, "release_order": perm,
+				"requests_seen(package index, responses released before)": seen}})
+	}
 }
